@@ -1,0 +1,25 @@
+//go:build verif
+
+package messages
+
+import (
+	"reflect"
+
+	"github.com/jcmturner/gofork/encoding/asn1"
+)
+
+// VerifShadowTypes exposes the unexported marshalling shadow structs to the verification harness, which
+// reads their asn1 struct tags by reflection (build tag verif only).
+func VerifShadowTypes() map[string]reflect.Type {
+	return map[string]reflect.Type{
+		"marshalAPReq":      reflect.TypeOf(marshalAPReq{}),
+		"marshalKDCReq":     reflect.TypeOf(marshalKDCReq{}),
+		"marshalKDCReqBody": reflect.TypeOf(marshalKDCReqBody{}),
+		"marshalKDCRep":     reflect.TypeOf(marshalKDCRep{}),
+	}
+}
+
+// VerifUnmarshalTicketsSequence exposes unmarshalTicketsSequence (build tag verif only).
+func VerifUnmarshalTicketsSequence(in asn1.RawValue) ([]Ticket, error) {
+	return unmarshalTicketsSequence(in)
+}
